@@ -15,10 +15,10 @@
 using namespace sim; using namespace sapp;
 
 enum { ST_RUNS, ST_SETS, ST_CYCLES, ST_LOADS, F_CRASH, F_LOST, F_TORN, F_FLIP, F_HEADER, F_APPNAME, F_GARBAGE, F_UNKNOWN_PORT, F_PERMUTED, F_DEP_LINE_DELETED,
-       P_UNTOUCHED, P_LINES3, P_NEG_VALUE, P_FLOAT_LINE, P_TOGGLE_LINE, P_STRING_SPECIAL, P_ARRAY_LINE, P_PRESET_NONZERO, P_SUBTREE_LINE, P_PTR_SUBTREE_LINE, P_PRUNED, P_OPTION_LINE, P_PERM_ALL, P_PERM_SAMPLED, P_DEP_ORDER_MATTERED, P_TORN_ACCEPTED, P_NAME_WITH_BLANK, P_NEAR_MISS_PORT, P_AUTOSAVE, ST_N };
+       P_UNTOUCHED, P_LINES3, P_NEG_VALUE, P_FLOAT_LINE, P_TOGGLE_LINE, P_STRING_SPECIAL, P_ARRAY_LINE, P_PRESET_NONZERO, P_SUBTREE_LINE, P_PTR_SUBTREE_LINE, P_PRUNED, P_OPTION_LINE, P_PERM_ALL, P_PERM_SAMPLED, P_DEP_ORDER_MATTERED, P_TORN_ACCEPTED, P_NAME_WITH_BLANK, P_NEAR_MISS_PORT, P_AUTOSAVE, P_CHAR_ZERO, ST_N };
 static const char *STAT_NAMES[ST_N] = { "runs", "sets", "save_crash_restart_load_cycles", "evaluations", "fault.crash_restart", "fault.lost_write", "fault.torn_write", "fault.flipped_byte", "fault.foreign_header", "fault.other_application", "fault.unparsable_line", "fault.unknown_port_line", "fault.lines_permuted", "fault.depended_on_line_deleted",
        "probe.untouched_application_saved", "probe.savefile_with_3_or_more_lines", "probe.negative_value_saved", "probe.float_saved", "probe.toggle_saved", "probe.string_with_special_characters_saved", "probe.array_saved", "probe.non_default_preset_saved",
-       "probe.subtree_parameter_saved", "probe.pointer_subtree_parameter_saved", "probe.disabled_subtree_pruned", "probe.option_saved", "probe.all_permutations_enumerated", "probe.permutations_sampled", "probe.file_with_dependency_between_lines", "probe.torn_file_accepted_partially", "probe.application_name_with_a_blank", "probe.unknown_port_named_like_a_port_plus_suffix", "probe.autosave_without_restart" };
+       "probe.subtree_parameter_saved", "probe.pointer_subtree_parameter_saved", "probe.disabled_subtree_pruned", "probe.option_saved", "probe.all_permutations_enumerated", "probe.permutations_sampled", "probe.file_with_dependency_between_lines", "probe.torn_file_accepted_partially", "probe.application_name_with_a_blank", "probe.unknown_port_named_like_a_port_plus_suffix", "probe.autosave_without_restart", "probe.char_parameter_zero_saved" };
 
 enum { OP_SET = 0, OP_CYCLE, OP_FILL };
 enum { FL_NONE = 0, FL_LOST, FL_TORN, FL_FLIP, FL_HEADER, FL_APP, FL_GARBAGE, FL_UNKNOWN, FL_N };
@@ -68,7 +68,7 @@ struct SaveWorld : World {
         // (the toggles and selectors that enable, reset or select defaults for it live there)
         std::vector<int> hood; if (pr.chance(0.5)) { const std::string &fa = P[pr.below(P.size())].addr; std::string fdir = fa.substr(0, fa.rfind('/') + 1);
             for (size_t q = 0; q < P.size(); q++) { std::string qd = P[q].addr.substr(0, P[q].addr.rfind('/') + 1); if (fdir.compare(0, qd.size(), qd) == 0) hood.push_back((int)q); } }
-        bool allow_char_zero = pr.chance(0.1);   // the trigger of a known finding is constructed in 10 % of the runs only, so that it cannot mask other failures
+        bool allow_char_zero = pr.chance(0.5);   // (char parameters holding 0 were the trigger of a finding repaired since)
         int n = 1 + (int)pr.below(prop == "C13" ? 18 : (g_tier ? 60 : 24)); bool faults = prop == "C12" && pr.chance(0.5);
         for (int i = 0; i < n; i++) {
             Op o;
@@ -131,8 +131,8 @@ struct SaveWorld : World {
             note("saving"); std::string text = save(*cur);
             std::vector<Val> want = snapshot(*cur); std::vector<bool> mask = reach_mask(*cur);
             std::vector<std::string> lines = message_lines(text);
-            // known finding: a char parameter holding 0 is printed as a raw NUL inside its literal, which ends the text
-            for (auto &pp : P) if (pp.type == 'c' && pp.reachable(cur->obj) && pp.get(cur->obj, 0).i == 0 && !(pp.get(cur->obj, 0) == pp.dflt(cur->obj, 0))) res.taint = "char-param-zero";
+            // (a char parameter holding 0 used to be printed as a raw NUL inside its literal, which ended the text: repaired, counted as a probe)
+            for (auto &pp : P) if (pp.type == 'c' && pp.reachable(cur->obj) && pp.get(cur->obj, 0).i == 0 && !(pp.get(cur->obj, 0) == pp.dflt(cur->obj, 0))) stat_add(P_CHAR_ZERO);
             // ---- the file itself: minimal, well-formed header (checked on every save, whatever happens to the file next)
             {
                 std::set<std::string> addrs; for (auto &l : lines) addrs.insert(l.substr(0, l.find(' ')));
